@@ -73,34 +73,36 @@ pub fn parse_hex(v: &pv::Value) -> u64 {
     u64::from_str_radix(v.as_str().unwrap_or("0x0").trim_start_matches("0x"), 16).unwrap_or(0)
 }
 
-/// Fixed partition of the input space used in violation signatures:
-/// sign × {0, <360, >360} × {"", "=k180" (an exact non-zero multiple of 180), "~k180" (within 4
-/// tolerances of a multiple of 180 without being one)}.
+/// Fixed partition of the input space used in violation signatures: zero; an exact non-zero
+/// multiple of 180 ("=k180": the wrap points ±180, ±360, …); within 4 tolerances of a multiple of
+/// 180 without being one ("~k180": where the rounding of the quotient decides); otherwise
+/// sign × {first turn, beyond}.
 pub fn class_of<T: Fl>(x: T) -> &'static str {
-    const NAMES: [&str; 20] = [
-        "+0", "-0", "+<360", "-<360", "+>360", "->360", "+<360=k180", "-<360=k180", "+>360=k180", "->360=k180",
-        "+<360~k180", "-<360~k180", "+>360~k180", "->360~k180", "+=360", "-=360", "non-finite", ">2^20", "", "",
-    ];
     let v = x.to64();
     if !v.is_finite() {
-        return NAMES[16];
+        return "non-finite";
     }
     let a = v.abs();
-    let neg = v.is_sign_negative() as usize;
     if a == 0.0 {
-        return NAMES[neg];
+        return "0";
     }
     if a > LIM {
-        return NAMES[17];
+        return ">2^20";
     }
-    if a == 360.0 {
-        return NAMES[14 + neg];
-    }
-    let big = (a > 360.0) as usize;
     let tol = ulp_of(x) + u360::<T>();
     let d180 = (v - 180.0 * (v * (1.0 / 180.0)).round()).abs();
-    let kind = if d180 == 0.0 { 1 } else if d180 <= 4.0 * tol { 2 } else { 0 };
-    NAMES[2 + 4 * kind + 2 * big + neg]
+    if d180 == 0.0 {
+        return "=k180";
+    }
+    if d180 <= 4.0 * tol {
+        return "~k180";
+    }
+    match (v < 0.0, a > 360.0) {
+        (false, false) => "+<360",
+        (true, false) => "-<360",
+        (false, true) => "+>360",
+        (true, true) => "->360",
+    }
 }
 /// Coarse partition for the 8-bit mapping (the position within the turn is irrelevant there).
 pub fn class_u8<T: Fl>(x: T) -> &'static str {
